@@ -177,7 +177,7 @@ def c_range_table(ctx):
                 return ev(e.ch[1]) if c else ev(e.ch[2])
             if e.kind == "UnaryOperator" and e.op == "!":
                 v = ev(e.ch[0])
-                return v if v is None or isinstance(v, tuple) else not v
+                return v if v is None or isinstance(v, tuple) or v == "ANY" else not v
             if e.kind == "BinaryOperator" and e.op in ("&&", "||"):
                 a = ev(e.ch[0])
                 if a is None or isinstance(a, tuple):
@@ -291,12 +291,12 @@ def py_range_table(ctx, method):
                 return ev(flag_defs[e.id])
             if isinstance(e, ast.UnaryOp) and isinstance(e.op, ast.Not):
                 v = ev(e.operand)
-                return v if v is None or isinstance(v, tuple) else not v
+                return v if v is None or isinstance(v, tuple) or v == "ANY" else not v
             if isinstance(e, ast.BoolOp):
                 is_and = isinstance(e.op, ast.And)
                 for x in e.values:
                     v = ev(x)
-                    if v is None or isinstance(v, tuple):
+                    if v is None or isinstance(v, tuple) or v == "ANY":
                         return v
                     if bool(v) != is_and:
                         return bool(v)
@@ -315,6 +315,9 @@ def py_range_table(ctx, method):
                                 and role(a) in ("low", "high"):
                             isn = val[role(a) + "_none"]
                             return isn if isinstance(op, ast.Is) else not isn
+                    if isinstance(l, ast.Call) and isinstance(l.func, ast.Name) \
+                            and l.func.id == "type":
+                        return "ANY"    # exact-type dispatch of a conversion
                     return None
                 if type(op) in dt.PY_CMP:
                     lr, rr = role(l), role(r)
@@ -331,6 +334,15 @@ def py_range_table(ctx, method):
                     and e.func.id == "isinstance":
                 # `isinstance(value, str)` in _validate: numeric input
                 return False
+            if isinstance(e, ast.Compare) and len(e.ops) == 1 \
+                    and isinstance(e.ops[0], (ast.Is, ast.IsNot)) \
+                    and isinstance(e.left, ast.Call) \
+                    and isinstance(e.left.func, ast.Name) \
+                    and e.left.func.id == "type":
+                # exact-type dispatch of an (inlined) conversion helper: both
+                # arms yield the converted number, the range decision does
+                # not depend on it
+                return "ANY"
             return None
         return interp
     return rows, interp_for, g, mod, fn
@@ -347,6 +359,8 @@ def _decide(rows, interp_for, val, accept_outcomes, where):
             if v is None:
                 raise AnalysisError(
                     f"{where}: uninterpretable condition at line {node.line}")
+            if v == "ANY":
+                continue
             if isinstance(v, tuple):
                 return ("BAD", f"compares against a None {v[1]} bound "
                                f"(line {node.line})"), r
